@@ -166,7 +166,7 @@ where
             (kind, op, (g("d") - 1) as usize, (a0 - 1).max(0) as usize, (b0 - 1).max(0) as usize, g("fm") as u64,
              rawv.unwrap_or((num as i128) as u128), g("nt") as usize)
         } else {
-            let kind = if step < 3 { 0 } else { [1u64, 1, 1, 1, 2, 3, 4, 4, 5, 6, 0, 7][rng.below(if c.wr.big { 12 } else { 11 }) as usize] };
+            let kind = if step < 3 { 0 } else { [1u64, 1, 1, 1, 2, 3, 4, 4, 5, 6, 0, 8, 7][rng.below(if c.wr.big { 13 } else { 12 }) as usize] };
             let op = match kind {
                 1 => BINOPS[rng.below(BINOPS.len() as u64) as usize],
                 2 => INTOPS[rng.below(INTOPS.len() as u64) as usize],
@@ -175,6 +175,7 @@ where
                 5 => ["sum", "product"][rng.below(2) as usize],
                 6 => "from_int",
                 7 => "from_float",
+                8 => "from_fix",
                 _ => "load",
             };
             let numraw = match kind {
@@ -304,6 +305,27 @@ where
                     c.wr.raw(&format!("{}", x + 1));
                 }
                 c.wr.raw("],\"r\":");
+                c.wr.out1(&wout(r));
+                c.wr.raw("}");
+                c.wr.end();
+            }
+            8 => {
+                // Wrapping::from_num of a bool or of another fixed-point type
+                let sel = form % 4;
+                let (sl, sv, r): (Lay, Num, Result<W<F>, bool>) = match sel {
+                    0 => { let b = numraw & 1 == 1; (Lay { s: false, w: 1, f: 0 }, Num::u(b as u128), cat(|| W::<F>::from_num(b))) }
+                    1 => { let x = I4F4::from_bits(numraw as i8); (I4F4::lay(), x.val(), cat(|| W::<F>::from_num(x))) }
+                    2 if c.wr.big => { let x = I16F16::from_bits(numraw as i32); (I16F16::lay(), x.val(), cat(|| W::<F>::from_num(x))) }
+                    3 if c.wr.big => { let x = U0F128::from_bits(numraw | (numraw << 64)); (U0F128::lay(), x.val(), cat(|| W::<F>::from_num(x))) }
+                    _ => { let x = U8F0::from_bits(numraw as u8); (U8F0::lay(), x.val(), cat(|| W::<F>::from_num(x))) }
+                };
+                if let Ok(v) = r { reg[d] = v; }
+                ev_head(c, "from_fix", d);
+                c.wr.raw(",\"sl\":");
+                c.wr.lay(sl);
+                c.wr.raw(",\"sv\":");
+                c.wr.num(sv);
+                c.wr.raw(",\"r\":");
                 c.wr.out1(&wout(r));
                 c.wr.raw("}");
                 c.wr.end();
